@@ -71,6 +71,11 @@ def run_C06(ctx):
         if r["kind"] != "tptp" or r["text"] in seen:
             continue
         seen.add(r["text"])
+        if set(r["syms"]) & {q["p"] for q in r["preds"]}:
+            # a name used as symbolic constant and as predicate: inside a problem anthem renames the constant first (C09's subject);
+            # the bare formatter is not expected to cope with it
+            skipped["symbol-named-like-a-predicate"] = skipped.get("symbol-named-like-a-predicate", 0) + 1
+            continue
         decls = list(pre)
         for k, p in enumerate(r["preds"]):
             decls.append(decl(f"predicate_{k}", p["p"], ["general"] * p["n"], "$o"))
